@@ -30,6 +30,12 @@ ReadStats read_stats();
 struct WriteStream;
 typedef void (*write_cb)(const char *data, size_t n, void *ud); // called under the baton for each underlying write
 FILE *open_write_stream(write_cb cb, void *ud);
+// path that the wrapped fopen recognises for writing (log writers opening their own file): served by a scripted write stream
+static const char *const kLogPath = "/dsim/log";
+void set_log_path_sink(write_cb cb, void *ud); // must be set before the library opens kLogPath
+int log_path_opens();
+int log_path_closes();
+void set_log_path_fopen_errno(int e);
 // make the k-th following write (1 = next) fail with errno e (0 disables); short = bytes accepted before failing
 void write_stream_fail(int nth_from_now, int e, size_t accept_bytes);
 int write_stream_failures();
